@@ -261,8 +261,9 @@ def run_real(exe, i, orc):
 def oracles_for(rng, n):
     out = [[1] * 40, []]
     while len(out) < n:
-        k = rng.choice([3, 6, 10, 16, 24])
-        out.append([rng.choice([0, 1, 1, 1, 2, 3]) for _ in range(k)])
+        k = rng.choice([6, 12, 20, 32, 48])
+        # zeros end loops, so that most runs finish (an exhausted oracle aborts the run and only a prefix is compared)
+        out.append([rng.choice([0, 0, 1, 1, 1, 2, 3]) for _ in range(k)])
     return out
 
 
@@ -390,7 +391,7 @@ def correspond(ctx):
 
     # ---- `accepted` (the hypothesis of the main theorem) against the real analyzer, around the boundary:
     # programs whose exits are placed anywhere (outside loops / do-expressions, inside defer blocks, ...)
-    nb = ctx.scale(60, 1500)
+    nb = ctx.scale(150, 1500)
     bg = c15gen.Gen(rng, allow_escape=True, misplace=True, maxdepth=3)
     bprogs = [bg.program() for _ in range(nb)]
     bmodel = run_model(driver, [c15gen.serialise(v, b) + " | " for v, b in bprogs])
@@ -507,7 +508,7 @@ def correspond(ctx):
     return {
         "evaluations": n_eval,
         "distinct_nontrivial": len(nontrivial),
-        "rule": "cases = corpus (incl. the regression witnesses of the repaired defects) + 6 must-reject probes + random programs of the mini-language (streams wf / wf-deep / targeted / lua-subset / toplevel) x oracle scripts (all-ones, empty, random 0..3 of length 3..24); non-trivial = distinct (program, oracle) whose reference trace runs at least one deferred block",
+        "rule": "cases = corpus (incl. the regression witnesses of the repaired defects) + 6 must-reject probes + random programs of the mini-language (streams wf / wf-deep / targeted / lua-subset / toplevel) x oracle scripts (all-ones, empty, random 0..3 of length 6..48); non-trivial = distinct (program, oracle) whose reference trace runs at least one deferred block",
         "samples": [lines[0][:300], lines[len(lines) // 2][:300], lines[-1][:300]],
         "distribution": {"streams": dist, "programs": len(tok_checked), "files": len(files),
                          "distinct_exit_x_context_features": len(feats), "reference_outcomes": exits},
